@@ -644,6 +644,80 @@ def app_disconnect_probe(how, slow_on, connect_pending):
     return simnet.run(go)
 
 
+def raising_on_connect_probe(n_failures_before):
+    """`n_failures_before` attempts fail; the next one establishes a session, but the application's on_connect callback raises (the
+    link drops while it talks to the device); the session ends unexpectedly, the attempt that follows at once fails again. That
+    failure is the FIRST consecutive failure after an established session: the retry comes min(round(1.8^1), 60) = 2 s later.
+    Returns (seconds between that failed attempt and the retry, events)."""
+    def go(loop):
+        async def inner():
+            from aioesphomeapi.core import APIConnectionError
+            from aioesphomeapi.reconnect_logic import ReconnectLogic
+            run = Run(loop)
+            cli = run.cli
+            events = []
+            loop.set_exception_handler(lambda l, ctx: None)
+            state = {"raise": True}
+
+            async def on_connect():
+                events.append("connect")
+                if state["raise"]:
+                    raise APIConnectionError("link lost while reading the device info")
+
+            async def on_disconnect(expected):
+                events.append(f"disconnect({bool(expected)})")
+
+            async def on_connect_error(err):
+                events.append("error")
+            rl = ReconnectLogic(client=cli, on_connect=on_connect, on_disconnect=on_disconnect, on_connect_error=on_connect_error, name="dev")
+            await rl.start()
+            await simnet.drain(loop)
+
+            async def next_attempt(limit=70.0):
+                t_end = loop.time() + limit
+                while cli.pending is None and loop.time() < t_end:
+                    nt = loop.next_timer()
+                    if nt is None:
+                        break
+                    await simnet.advance(loop, to=nt + loop.base)
+                return cli.pending is not None
+            for _ in range(n_failures_before):
+                if not await next_attempt():
+                    return None, events + ["no attempt"]
+                cli.pending[1].set_exception(APIConnectionError("nope"))
+                await simnet.drain(loop)
+            if not await next_attempt():
+                return None, events + ["no attempt"]
+            cli.pending[1].set_result(None)          # start phase ok
+            await simnet.drain(loop)
+            if cli.pending is None:
+                return None, events + ["no finish phase"]
+            cli.pending[1].set_result(None)          # finish phase ok -> on_connect runs and raises
+            await simnet.drain(loop)
+            # the session ends (unexpectedly): the client tells the manager
+            cli.alive = False
+            if cli.on_stop is not None:
+                await cli.on_stop(False)
+            await simnet.drain(loop)
+            if not await next_attempt(5.0):
+                return None, events + ["no attempt after the session ended"]
+            t_fail = loop.time()
+            cli.pending[1].set_exception(APIConnectionError("nope"))
+            await simnet.drain(loop)
+            n0 = len(cli.attempt_times)
+            if not await next_attempt():
+                return None, events + ["no retry"]
+            gap = loop.time() - t_fail
+            await rl.stop()
+            await simnet.drain(loop)
+            for t in asyncio.all_tasks(loop):
+                if t is not asyncio.current_task():
+                    t.cancel()
+            return round(gap, 3), events
+        return inner()
+    return simnet.run(go)
+
+
 def name_forms_probe(name, address, ctor_name="<same>", record_for=None):
     """ReconnectLogic(name=...) for a client addressed by `address`: after a failed attempt a matching mDNS record for the device
     (named by `name`, or - when no name is given - by the host part of a local address) starts the next attempt at once.
@@ -799,6 +873,16 @@ def run_integration_probes(rep):
             rep.violation("C18/record-ignored" if want else "C18/foreign-record", f"ReconnectLogic(name={ctor_name!r}) for a client addressed {address!r}, then name = {name!r} assigned before start(); one attempt "
                           f"failed, then an mDNS record for {record_for or name!r} arrives while it is waiting: {res} (expected {want} attempt(s) at once, listener removed by stop())",
                           {"kind": "name-forms", "name": name, "address": address, "ctor_name": ctor_name, "record_for": record_for})
+    for n_before in (0, 2, 5):
+        gap, events = raising_on_connect_probe(n_before)
+        replay = {"kind": "raising-on-connect", "failures_before": n_before}
+        rep.case(("raising-on-connect", n_before), True, sample={"probe": replay, "gap_s": gap, "events": events[-8:]})
+        rep.bump("probe:raising-on-connect")
+        if gap is None:
+            rep.violation("C18/no-retry", f"{n_before} failed attempt(s), then a session whose on_connect callback raises, then its unexpected end and a failed attempt: {events[-6:]}", replay)
+        elif abs(gap - 2.0) > 0.01:
+            rep.violation("C18/backoff", f"{n_before} failed attempt(s), then an established session (its on_connect callback raised), its unexpected end, and one failed attempt: "
+                          f"the retry came {gap} s after that failure; it is the first consecutive failure, the back-off is min(round(1.8^1), 60) = 2 s", replay)
     for cycles in (0, 1, 2):
         res = owned_engine_restart_probe(cycles)
         rep.case(("owned-engine-restart", cycles), True, sample={"owned_engine_restart": cycles, "result": res})
@@ -940,6 +1024,10 @@ def replay(path):
         common.setup_impl_path()
         print(owned_engine_restart_probe(d["cycles"]))
         return 0
+    if d.get("kind") == "raising-on-connect":
+        r = raising_on_connect_probe(d["failures_before"])
+        print(r)
+        return 1 if (r[0] is None or abs(r[0] - 2.0) > 0.01) else 0
     if d.get("kind") == "app-disconnect":
         print(app_disconnect_probe(d["how"], d["slow_on"], d["connect_pending"]))
         return 0
